@@ -212,4 +212,139 @@ theorem C14_repeat_categories :
     (Gen.memberRepeatTypes == ["map", "child", "parent", "ghost", "type_hint"]
      && Gen.traitRepeatTypes == ["vars", "update", "quick_return", "default_case"]) = true := by decide
 
+/-- the repeat source still active after a list of payload members (with its `permeate` flag) -/
+def leftover : List Field → Option (MemberAttrs × Bool) → Option (MemberAttrs × Bool)
+  | [], a => a
+  | f :: rest, a =>
+    let a := if f.attrs.stopRepeat then none else a
+    match f.attrs.repeat_ with
+    | some r => leftover rest (some (f.attrs, r.permeate))
+    | none => leftover rest a
+
+theorem threadFields_ctx (fs : List Field) (ctx : Context) (out : List Field) (ctx' : Context)
+    (h : threadFields fs ctx = some (out, ctx')) :
+    ctx' = { ctx with fieldAttrsToRepeat := leftover fs ctx.fieldAttrsToRepeat } := by
+  induction fs generalizing ctx out ctx' with
+  | nil => simp [threadFields] at h; simp [leftover, h.2]
+  | cons f rest ih =>
+    unfold threadFields at h
+    unfold leftover
+    cases hstop : f.attrs.stopRepeat <;> simp only [hstop, Bool.false_eq_true, if_false, if_true] at h ⊢
+    all_goals
+      cases hr : f.attrs.repeat_ with
+      | some r =>
+        simp only [hr] at h ⊢
+        split at h
+        · simp at h
+        · simp only [Option.map_eq_some_iff] at h
+          obtain ⟨⟨fs', c'⟩, hrec, heq⟩ := h
+          simp only [Prod.mk.injEq] at heq
+          rw [← heq.2]
+          exact ih _ _ _ hrec
+      | none =>
+        simp only [hr] at h ⊢
+        first
+        | (cases hc : ctx.fieldAttrsToRepeat with
+           | none =>
+             simp only [hc] at h ⊢
+             simp only [Option.map_eq_some_iff] at h
+             obtain ⟨⟨fs', c'⟩, hrec, heq⟩ := h
+             simp only [Prod.mk.injEq] at heq
+             rw [← heq.2]
+             have := ih _ _ _ hrec
+             simpa [hc] using this
+           | some p =>
+             obtain ⟨src, perm⟩ := p
+             simp only [hc] at h ⊢
+             simp only [Option.map_eq_some_iff] at h
+             obtain ⟨⟨fs', c'⟩, hrec, heq⟩ := h
+             simp only [Prod.mk.injEq] at heq
+             rw [← heq.2]
+             have := ih _ _ _ hrec
+             simpa [hc] using this)
+        | (simp only [Option.map_eq_some_iff] at h
+           obtain ⟨⟨fs', c'⟩, hrec, heq⟩ := h
+           simp only [Prod.mk.injEq] at heq
+           rw [← heq.2]
+           exact ih _ _ _ hrec)
+
+/-- what a variant's end does to the active source: a plain repeat ends with its variant, a permeating one goes on -/
+def endOfVariant (a : Option (MemberAttrs × Bool)) : Option (MemberAttrs × Bool) :=
+  match a with
+  | some (_, permeating) => if !permeating then none else a
+  | none => none
+
+/-- the context handling of `Variant::from_syn`, on parsed payloads -/
+def threadPayloads : List (List Field) → Context → Option (List (List Field) × Context)
+  | [], ctx => some ([], ctx)
+  | fs :: rest, ctx =>
+    match threadFields fs ctx with
+    | none => none
+    | some (out, ctx1) =>
+      let ctx2 := match ctx1.fieldAttrsToRepeat with
+        | some (_, permeating) => if !permeating then { ctx1 with fieldAttrsToRepeat := none } else ctx1
+        | none => ctx1
+      (threadPayloads rest ctx2).map fun (os, c) => (out :: os, c)
+
+/-- declarative reading over a whole enum -/
+def writeOutPayloads : List (List Field) → Option (MemberAttrs × Bool) → List (List Field)
+  | [], _ => []
+  | fs :: rest, a => writeOutFields fs (a.map (·.1)) :: writeOutPayloads rest (endOfVariant (leftover fs a))
+
+/-- C14 (payload members of an enum's variants, plain and permeating repeat): whenever the threading over the variants
+    succeeds, every variant's payload is the written-out form under the source that is active when the variant begins — a
+    plain repeat ends with its variant, a `repeat(permeate())` one is carried on until `stop_repeat`; any number of
+    variants, any placement of the instructions -/
+theorem C14_enum_payloads (vs : List (List Field)) (ctx : Context) (outs : List (List Field)) (ctx' : Context)
+    (h : threadPayloads vs ctx = some (outs, ctx')) :
+    outs = writeOutPayloads vs ctx.fieldAttrsToRepeat := by
+  induction vs generalizing ctx outs ctx' with
+  | nil => simp [threadPayloads] at h; simp [writeOutPayloads, h.1]
+  | cons fs rest ih =>
+    unfold threadPayloads at h
+    unfold writeOutPayloads
+    cases ht : threadFields fs ctx with
+    | none => simp [ht] at h
+    | some p =>
+      obtain ⟨out, ctx1⟩ := p
+      simp only [ht, Option.map_eq_some_iff] at h
+      obtain ⟨⟨os, c⟩, hrec, heq⟩ := h
+      simp only [Prod.mk.injEq] at heq
+      rw [← heq.1]
+      have h1 := C14_fields fs ctx out ctx1 ht
+      have h2 := threadFields_ctx fs ctx out ctx1 ht
+      have h3 := ih _ _ _ hrec
+      rw [h1, h3]
+      congr 1
+      rw [h2]
+      simp only [endOfVariant]
+      cases hl : leftover fs ctx.fieldAttrsToRepeat with
+      | none => rfl
+      | some q =>
+        obtain ⟨src, perm⟩ := q
+        cases perm <;> rfl
+
+/-- tie to `Variant::from_syn`: when the payload members' own instructions and the variant's own instructions parse, the
+    variant's payload is the threaded one and the context it leaves is the one `threadPayloads` passes on -/
+theorem C14_variant_from_syn (b : Back) (bark : Bool) (ctx : Context) (v : RawVariant) (fs : List Field) (attrs : MemberAttrs)
+    (hf : parseFields b bark v.fields.fields 0 = .ok fs) (ha : getMemberAttrs b v.attrs none bark = .ok attrs) :
+    Variant.fromSyn b ctx v bark =
+      match threadFields fs ctx with
+      | some (out, c) =>
+        .ok ({ attrs := attrs, ident := v.name, fields := out, namedFields := v.fields.kind == .named, unit := v.fields.kind == .unit },
+             match c.fieldAttrsToRepeat with
+             | some (_, permeating) => if !permeating then { c with fieldAttrsToRepeat := none } else c
+             | none => c)
+      | none => .error (.o2o repeatNotTerminated) := by
+  unfold Variant.fromSyn
+  rw [C14_multiple_from_syn b bark v.fields.fields 0 ctx [] fs hf]
+  cases threadFields fs ctx with
+  | none => rfl
+  | some p =>
+    obtain ⟨out, c⟩ := p
+    simp [bind, Except.bind, ha, pure, Except.pure]
+    cases c.fieldAttrsToRepeat with
+    | none => rfl
+    | some q => obtain ⟨x, y⟩ := q; cases y <;> rfl
+
 end O2o
